@@ -17,7 +17,7 @@ import os
 import re
 from fractions import Fraction
 
-from .common import TranslationError, body_wo_doc, coq_str, HEADER
+from .common import TranslationError, body_wo_doc, coq_str, HEADER, unelif_raising
 
 FIXED_FILES = ['opytimizer/core/agent.py', 'opytimizer/core/space.py', 'opytimizer/core/node.py',
                'opytimizer/core/function.py', 'opytimizer/core/optimizer.py', 'opytimizer/functions/weighted.py',
@@ -862,6 +862,7 @@ def generate(repo):
         path = os.path.join(repo, rel)
         try:
             tree = ast.parse(open(path).read(), filename=rel)
+            unelif_raising(tree)
         except (OSError, SyntaxError) as ex:
             errors.append({'item': 'file ' + rel, 'file': rel, 'line': 0, 'msg': 'cannot parse: %s' % ex})
             continue
